@@ -214,6 +214,20 @@ impl Monitor for C16 {
                         if inc {
                             let mv = movement(&v, &user, &vault);
                             k.deposit(&mint, &mv, need, None, bound, side, &mut out, cov);
+                            // on a copy: maximum one below what was just taken - the owner must never be debited more than it
+                            if name == "increase_liquidity_v2" && mv.sent > 0 && mv.withheld > 0 && ev.salt % 2 == 0 {
+                                let off = if side == "token A" { 24 } else { 32 };
+                                let tight = (mv.sent - 1) as u64;
+                                let mut ix2 = v.ix.clone();
+                                ix2.data[off..off + 8].copy_from_slice(&tight.to_le_bytes());
+                                let mut f = v.pre.clone();
+                                let r2 = crate::rt::exec_tx_simple(&mut f, &crate::rt::Tx { ixs: vec![ix2] });
+                                cov.probe("increase_tight_maximum_forks");
+                                let debit = amt(v.pre, &user) - amt(&f, &user);
+                                if r2.ok && debit > tight as i128 {
+                                    out.push(viol("user_paid_more_than_maximum", ev.idx, format!("increase_liquidity_v2 {}: with token_max = {} the call succeeds and debits the owner {} (pool needs {}, transfer fee {})", side, tight, debit, need, mv.withheld)));
+                                }
+                            }
                             if name == "increase_liquidity_by_token_amounts_v2" && mv.sent as u128 > bound as u128 {
                                 out.push(viol("user_paid_more_than_maximum", ev.idx, format!("by-token-amounts {}: debited {} > maximum {}", side, mv.sent, bound)));
                             }
@@ -242,6 +256,80 @@ impl Monitor for C16 {
                                 cov.probe("pinocchio_liquidity_event_checked");
                                 if l != liq || ta as i128 != ma.sent || tb as i128 != mb.sent || fa as i128 != ma.withheld || fb as i128 != mb.withheld {
                                     out.push(viol("event_amounts", ev.idx, format!("{} reports L {} amounts {} / {} fees {} / {} but L {} and {} / {} moved with fees {} / {}", ev_name, l, ta, tb, fa, fb, liq, ma.sent, mb.sent, ma.withheld, mb.withheld)));
+                                }
+                            }
+                        }
+                    }
+                }
+                "reposition_liquidity_v2" => {
+                    let wk = c.a("whirlpool");
+                    let Some(pool) = v.pre.data(&wk).and_then(decode::pool) else { continue };
+                    if !has_fee_mint(v.pre, &pool) {
+                        continue;
+                    }
+                    let Some(pre_pos) = v.pre.data(&c.a("position")).and_then(decode::position) else { continue };
+                    let mut r = c.args();
+                    let (new_lo, new_hi) = (r.i32(), r.i32());
+                    let _variant = r.u8();
+                    let new_liq = r.u128();
+                    let (min_a, min_b, max_a, max_b) = (r.u64(), r.u64(), r.u64(), r.u64());
+                    let (old_a, old_b) = model::liquidity_amounts(pre_pos.liquidity, pool.tick_current_index, pool.sqrt_price, pre_pos.lower, pre_pos.upper, false);
+                    let (new_a, new_b) = model::liquidity_amounts(new_liq, pool.tick_current_index, pool.sqrt_price, new_lo, new_hi, true);
+                    let to128 = |x: &num_bigint::BigUint| x.to_u128().unwrap_or(u128::MAX);
+                    cov.eval(format!("{}|a:{}|b:{}", name, fee_class(v.pre, &pool.mint_a, epoch), fee_class(v.pre, &pool.mint_b, epoch)));
+                    let mut moved: Vec<(bool, Move)> = Vec::new();
+                    for (mint, user, vault, old, new, min, max, side) in [
+                        (pool.mint_a, c.a("token_owner_account_a"), pool.vault_a, to128(&old_a), to128(&new_a), min_a, max_a, "token A"),
+                        (pool.mint_b, c.a("token_owner_account_b"), pool.vault_b, to128(&old_b), to128(&new_b), min_b, max_b, "token B"),
+                    ] {
+                        if new >= old {
+                            // the owner pays the difference; the stated maximum for the new range bounds what is taken from them
+                            let mv = movement(&v, &user, &vault);
+                            k.deposit(&mint, &mv, new - old, None, max, &format!("{} (net owner -> vault)", side), &mut out, cov);
+                            cov.probe("reposition_net_deposit_checked");
+                            // on a copy: the same call with a maximum one below what was just taken from the owner -
+                            // whatever the program then does, the owner must not be debited more than that maximum
+                            if mv.sent > 0 && mv.withheld > 0 && v.ix.data.len() >= 65 {
+                                let off = if side == "token A" { 49 } else { 57 };
+                                let tight = (mv.sent - 1) as u64;
+                                let mut ix2 = v.ix.clone();
+                                ix2.data[off..off + 8].copy_from_slice(&tight.to_le_bytes());
+                                let mut f = v.pre.clone();
+                                let r2 = crate::rt::exec_tx_simple(&mut f, &crate::rt::Tx { ixs: vec![ix2] });
+                                cov.probe("reposition_tight_maximum_forks");
+                                let debit = amt(v.pre, &user) - amt(&f, &user);
+                                if r2.ok && debit > tight as i128 {
+                                    out.push(viol("user_paid_more_than_maximum", ev.idx, format!("reposition {}: with new_range_token_max = {} the call succeeds and debits the owner {} (the new range takes {}, the existing range returned {}, transfer fee {})", side, tight, debit, new, old, mv.withheld)));
+                                }
+                            }
+                            moved.push((true, mv));
+                        } else {
+                            // the owner receives the difference; when the new range takes nothing of this token, the
+                            // stated minimum for the existing range is about what actually arrives
+                            let mv = movement(&v, &vault, &user);
+                            k.withdrawal(&mint, &mv, old - new, if new == 0 { min } else { 0 }, &format!("{} (net vault -> owner)", side), &mut out, cov);
+                            cov.probe("reposition_net_withdrawal_checked");
+                            moved.push((false, mv));
+                        }
+                    }
+                    // Pinocchio event (hook H2): transfer amounts, fees and directions as moved
+                    let d = decode::event_disc("LiquidityRepositioned");
+                    for (pid, fields) in &v.out.events {
+                        if *pid != crate::ix::wp() {
+                            continue;
+                        }
+                        for f in fields {
+                            let head = 8 + 32 + 32 + 16 + 32 + 32;
+                            if f.len() >= head + 34 && f[..8] == d {
+                                let mut r = decode::Rd::new(f, head);
+                                let (ta, fa, da) = (r.u64(), r.u64(), r.u8() != 0);
+                                let (tb, fb, db) = (r.u64(), r.u64(), r.u8() != 0);
+                                cov.probe("pinocchio_reposition_event_checked");
+                                for (side, (t, fee, dir), (from_owner, mv)) in [("A", (ta, fa, da), &moved[0]), ("B", (tb, fb, db), &moved[1])] {
+                                    let dir_ok = dir == *from_owner || mv.sent == 0;
+                                    if t as i128 != mv.sent || fee as i128 != mv.withheld || !dir_ok {
+                                        out.push(viol("event_amounts", ev.idx, format!("LiquidityRepositioned reports token {} transfer {} fee {} from_owner={} but {} moved with fee {} (from_owner={})", side, t, fee, dir, mv.sent, mv.withheld, from_owner)));
+                                    }
                                 }
                             }
                         }
